@@ -796,18 +796,34 @@ class Interp(ExprMixin):
         for l in n.lhs_list:
             self.assign(l, v, fr)
 
+    def _inplace(self, op, cur, rhs, fake, fr):
+        """x op= y: numpy arrays and lists are updated IN PLACE (every alias sees the change), everything else is rebound"""
+        if isinstance(cur, np.ndarray):
+            cur[...] = self._binop(op, cur, rhs, fake, fr)
+            return cur
+        if isinstance(cur, list) and op == "+":
+            cur.extend(rhs)
+            return cur
+        if isinstance(cur, list) and op == "*":
+            cur *= rhs
+            return cur
+        if isinstance(cur, (set, dict)) and op in ("|", "&", "-", "^"):
+            import operator as _op
+            return {"|": _op.ior, "&": _op.iand, "-": _op.isub, "^": _op.ixor}[op](cur, rhs)
+        return self._binop(op, cur, rhs, fake, fr)
+
     def x_InPlaceAssignmentNode(self, n, fr):
         t = n.lhs
         op = n.operator
         if isinstance(t, E.NameNode):
             cur = self.lookup(t.name, fr, t)
-            r = self._binop(op, cur, self.eval(n.rhs, fr), _FakeBin(t, n.rhs), fr)
+            r = self._inplace(op, cur, self.eval(n.rhs, fr), _FakeBin(t, n.rhs), fr)
             r = self._wrap_static(r, t, fr)
             self.store_name(t.name, r, fr)
         elif isinstance(t, E.AttributeNode):
             obj = self.eval(t.obj, fr)
             cur = self.getattr_(obj, t.attribute, fr)
-            r = self._binop(op, cur, self.eval(n.rhs, fr), _FakeBin(t, n.rhs), fr)
+            r = self._inplace(op, cur, self.eval(n.rhs, fr), _FakeBin(t, n.rhs), fr)
             if isinstance(obj, ObjModel):
                 self.obj_setattr(obj, t.attribute, r)
             else:
@@ -820,8 +836,9 @@ class Interp(ExprMixin):
             elif is_sym(idx):
                 idx = ctx().concretize(idx, 0, len(base) if not isinstance(base, Pointer) else base._size())
             cur = self.getitem(base, idx)
-            r = self._binop(op, cur, self.eval(n.rhs, fr), _FakeBin(t, n.rhs), fr)
-            self.setitem(base, idx, r, self._elem_type(t.base, fr))
+            r = self._inplace(op, cur, self.eval(n.rhs, fr), _FakeBin(t, n.rhs), fr)
+            if not (r is cur and isinstance(cur, (list, set, dict))):
+                self.setitem(base, idx, r, self._elem_type(t.base, fr))
         else:
             raise Unsupported("in-place target %s" % type(t).__name__)
 
